@@ -9,6 +9,7 @@ thread also loses the processor when it blocks on a lock or finishes.  With
 that, "all schedules with at most b preemptions" is a finite enumeration over
 yield points that are *measured* from the code.
 """
+import os
 import threading
 
 
@@ -33,6 +34,9 @@ class Sched:
         self.switches = 0
         self.seq = 0
         self.lock_log = []         # (seq, thread index, id(lock)) for every acquisition by a scheduled thread
+        self.held = {}             # thread index -> locks it holds, in acquisition order
+        self.lock_edges = set()    # (role held, role acquired): observed nesting of lock acquisitions
+        self.same_role_pairs = set()   # (role, instance held, instance acquired) for nested locks of one role
 
     # -- registration -------------------------------------------------------
     def me(self):
@@ -154,6 +158,19 @@ class CoopLock:
     def __init__(self):
         self._owner = None
         self._real = threading.Lock()
+        # role = where the library created the lock (module:attribute), e.g. cache.py:_files_lock
+        self.role = '?'
+        import sys
+        f = sys._getframe(1)
+        while f is not None:
+            fn = f.f_code.co_filename
+            if os.sep + 'file_builder' + os.sep in fn:
+                import linecache
+                import re
+                m = re.search(r'self\.(\w+)\s*=', linecache.getline(fn, f.f_lineno))
+                self.role = '%s:%s' % (os.path.basename(fn), m.group(1) if m else f.f_lineno)
+                break
+            f = f.f_back
 
     def acquire(self, blocking=True, timeout=-1):
         s = CoopLock.current_sched
@@ -170,6 +187,13 @@ class CoopLock:
         self._owner = s.me()
         s.seq += 1
         s.lock_log.append((s.seq, s.me(), id(self)))
+        mine = s.held.setdefault(s.me(), [])
+        for h in mine:
+            if h.role == self.role:
+                s.same_role_pairs.add((self.role, id(h), id(self)))
+            else:
+                s.lock_edges.add((h.role, self.role))
+        mine.append(self)
         return True
 
     def release(self):
@@ -180,6 +204,9 @@ class CoopLock:
             return
         self._owner = None
         if s is not None:
+            mine = s.held.get(s.me())
+            if mine and self in mine:
+                mine.remove(self)
             s.wake(self)
             if s.me() is not None:
                 s.yield_point('lock.release')
